@@ -161,6 +161,8 @@ type Graph struct {
 	inProg   map[int]bool
 	qdepth   int
 	edgeMemo map[[2]int][]Fact
+	edgeProg map[[2]int]bool
+	edgeQ    map[[2]int][]Fact
 	phiBr    int
 }
 
@@ -368,6 +370,7 @@ func (g *Graph) FactsAt(b int) []Fact {
 	g.qdepth--
 	if top {
 		g.qcache = nil
+		g.edgeQ = nil
 	}
 	return append([]Fact(nil), f...)
 }
@@ -410,36 +413,66 @@ func (g *Graph) EdgeFact(p, s int) (Fact, bool) { return g.edgeFact(p, s) }
 
 // EdgeFacts returns the facts that hold when control flows from block p to its successor s.
 func (g *Graph) EdgeFacts(p, s int) []Fact {
-	out := g.FactsAt(p)
-	if f, ok := g.edgeFact(p, s); ok {
-		key := [2]int{p, s}
-		if m, okM := g.edgeMemo[key]; okM {
-			return append([]Fact(nil), m...)
+	top := g.qdepth == 0
+	g.qdepth++
+	out, _ := g.edgeFactsT(p, s)
+	g.qdepth--
+	if top {
+		g.qcache = nil
+		g.edgeQ = nil
+	}
+	return append([]Fact(nil), out...)
+}
+
+// edgeFactsT is EdgeFacts for use inside a running query; the second result says that the
+// computation ran into a block still in progress.
+func (g *Graph) edgeFactsT(p, s int) ([]Fact, bool) {
+	key := [2]int{p, s}
+	if m, okM := g.edgeMemo[key]; okM {
+		return m, false
+	}
+	if m, okM := g.edgeQ[key]; okM {
+		return m, true
+	}
+	base, tainted := g.factsAt(p, nil)
+	out := append([]Fact(nil), base...)
+	if g.edgeProg == nil {
+		g.edgeProg = map[[2]int]bool{}
+	}
+	if g.edgeProg[key] {
+		// already being computed further up: the plain edge fact is all we add
+		if f, ok := g.edgeFact(p, s); ok {
+			out = append(out, f)
 		}
-		top := g.qdepth == 0
-		g.qdepth++
+		return out, true
+	}
+	g.edgeProg[key] = true
+	defer delete(g.edgeProg, key)
+	if f, ok := g.edgeFact(p, s); ok {
 		if g.inProg == nil {
 			g.inProg = map[int]bool{}
 		}
 		was := g.inProg[p]
 		g.inProg[p] = true
-		var tainted bool
-		out, tainted = g.unfold(append(out, f), nil, p)
+		var t2 bool
+		out, t2 = g.unfold(append(out, f), nil, p)
+		tainted = tainted || t2
 		if !was {
 			delete(g.inProg, p)
 		}
-		g.qdepth--
-		if top {
-			g.qcache = nil
-		}
-		if !tainted {
-			if g.edgeMemo == nil {
-				g.edgeMemo = map[[2]int][]Fact{}
-			}
-			g.edgeMemo[key] = append([]Fact(nil), out...)
-		}
 	}
-	return out
+	if !tainted {
+		if g.edgeMemo == nil {
+			g.edgeMemo = map[[2]int][]Fact{}
+		}
+		g.edgeMemo[key] = out
+	} else {
+		if g.edgeQ == nil {
+			g.edgeQ = map[[2]int][]Fact{}
+		}
+		g.edgeQ[key] = out
+	}
+	return out, tainted
 }
 
 type valClass int
@@ -593,12 +626,8 @@ func (g *Graph) unfold(out []Fact, _ map[int]bool, at int) ([]Fact, bool) {
 				if !g.Reach[pred] || g.Cut[pred] >= 0 {
 					continue
 				}
-				pf0, t := g.factsAt(pred, nil)
+				pf, t := g.edgeFactsT(pred, c)
 				tainted = tainted || t
-				pf := append([]Fact(nil), pf0...)
-				if ef, ok := g.edgeFact(pred, c); ok {
-					pf = append(pf, ef)
-				}
 				if g.contradicts(pf, have, c) {
 					pruned = true
 					continue
@@ -618,12 +647,25 @@ func (g *Graph) unfold(out []Fact, _ map[int]bool, at int) ([]Fact, bool) {
 				}
 				common = keep
 			}
-			if !pruned {
-				continue
+			_ = pruned
+			// what every way in agrees on holds after the merge, provided it speaks of a value computed
+			// before the merge (so that all ways in, and we, speak of the same evaluation)
+			before := func(v ssa.Value) bool {
+				ins, isI := v.(ssa.Instruction)
+				if !isI {
+					return true
+				}
+				return ins.Block() != nil && ins.Block().Index != c && g.DomBlock(ins.Block().Index, c)
 			}
 			for _, f := range common {
+				if !before(f.Cond) || (f.NilOf != nil && !before(f.NilOf)) {
+					continue
+				}
 				if f.NilOf != nil {
-					out = append(out, f)
+					if !have[[2]any{f.NilOf, f.IsNil}] {
+						have[[2]any{f.NilOf, f.IsNil}] = true
+						out = append(out, f)
+					}
 					continue
 				}
 				if !have[[2]any{f.Cond, f.Val}] {
@@ -679,12 +721,8 @@ func (g *Graph) unfold(out []Fact, _ map[int]bool, at int) ([]Fact, bool) {
 			if !g.Reach[pred] || g.Cut[pred] >= 0 || !containsInt(g.Succs[pred], pb) {
 				continue
 			}
-			pf0, t := g.factsAt(pred, nil)
+			pf, t := g.edgeFactsT(pred, pb)
 			tainted = tainted || t
-			pf := append([]Fact(nil), pf0...)
-			if ef, ok := g.edgeFact(pred, pb); ok {
-				pf = append(pf, ef)
-			}
 			if cls := classify(e, pf); cls != clsUnknown && cls != want {
 				continue
 			}
